@@ -371,6 +371,48 @@ def sort_agrees_with_dupcheck(chk, prog, dups):
         if n == 0:
             chk.violation("K2-sortkey", "%s:no-sort" % F.name, F, "no ordering comparison of sibling names precedes the "
                           "adjacent-duplicate test")
+        # the name is the *only* sort key: the decision which element comes first depends on the name comparison and
+        # on nothing else of the two nodes (a leading key such as 'directories last' separates equal names)
+        def other_node_fields(vals):
+            out = []
+            for x in vals:
+                if x.is_inst and x.op == "load":
+                    q = strip_casts(x.ops[0])
+                    if q.is_inst and q.op == "getelementptr" and q.fields():
+                        s_, n_ = q.fields()[-1]
+                        if (s_.startswith(NODE) and n_ not in ("name", "next")) or s_.startswith("struct.sqfs_inode"):
+                            out.append((x, n_))
+            return out
+        for g in reach:
+            if g is F:
+                continue
+            g.build()
+            cmps = [c for (_nm, c) in name_comparisons(prog, g)]
+            helpers = []
+            for c in g.calls():
+                t = prog.fn(c.callee or "", g.unit) if c.callee else None
+                if t is not None and t is not g and not t.decl and t.unit is g.unit and name_comparisons(prog, t):
+                    helpers.append((c, t))
+            for b in g.blocks:
+                t_ = b.term
+                if t_.op != "br" or len(t_.x["succ"]) != 2:
+                    continue
+                sl = list(backward_slice(t_.ops[0], phi_control=False, limit=200))
+                uses_cmp = any(x is c for x in sl for c in cmps) or any(x is c for x in sl for (c, _t) in helpers)
+                if not uses_cmp:
+                    continue
+                inst = "%s:only-key@%d" % (g.name, t_.line)
+                extra = other_node_fields(sl)
+                for (c, t) in helpers:
+                    if any(x is c for x in sl):
+                        t.build()
+                        extra += other_node_fields(list(t.insts()))
+                if extra:
+                    chk.violation("K2-sortkey", inst, t_, "which sibling comes first also depends on the node field '%s', not on "
+                                  "the name comparison alone: two entries with the same name need not end up next to each other, "
+                                  "and the duplicate test in %s only looks at neighbours" % (extra[0][1], F.name))
+                else:
+                    chk.ok("K2-sortkey", inst, t_, "the order of two siblings is decided by the name comparison alone")
 
 
 def sort_has_no_shortcut(chk, prog, dups):
